@@ -6,6 +6,24 @@ MCRefChoices == [n \in {"f", "g", "h"} |->
                      [] n = "h" -> {{"v"}, {}}]
 MCKindChoices == [n \in {"f", "g", "h"} |->
                    CASE n = "f" -> {"mem"} [] n = "g" -> {"mem", "plain"} [] n = "h" -> {"plain"}]
+\* for the behaviours replayed on real interpreters: no body mentions a function under two names (the alias and its own), so
+\* the open two-symbols finding (KF_OneRulePerKey) is not what the replay compares
+SimRefChoices == [n \in {"f", "g", "h"} |->
+                   CASE n = "f" -> {{"a", "v"}, {"h", "v"}, {"a"}}
+                     [] n = "g" -> {{"h", "v"}, {"v"}}
+                     [] n = "h" -> {{"v"}, {}}]
 \* behaviour generation for the replay on real interpreters: changes and observations alternate
-SimNext == IF nev % 2 = 0 THEN Mutate ELSE Observe
+\* (the kind of change is drawn first, so that re-definitions - which have many parameter combinations - do not crowd out the rest)
+MRedefine == \E n \in FnNames, e \in 0..1, d \in 0..1, rs \in UNION {RefChoices[x] : x \in FnNames}, k \in {"mem", "plain"} :
+                /\ rs \in RefChoices[n] /\ k \in KindChoices[n]
+                /\ text[n].ed + e <= MaxEd /\ text[n].dfl + d <= MaxEd
+                /\ Redefine(n, text[n].ed + e, text[n].dfl + d, rs, k)
+MKind(k) == CASE k = 1 -> MRedefine
+              [] k = 2 -> \E v \in VarNames, x \in -1..MaxVal : SetVar(v, x)
+              [] k = 3 -> \E a \in AliasNames, n \in FnNames \ {RootName} : Rebind(a, n)
+              [] k = 4 -> \E n \in FnNames : Wrap(n)
+              [] k = 5 -> NewProcess
+              [] OTHER -> \E b \in BOOLEAN : SetLock(b)
+SimMutate == LET k == RandomElement(1..7) IN IF ENABLED MKind(k) THEN MKind(k) ELSE Mutate
+SimNext == IF nev % 2 = 0 THEN SimMutate ELSE Observe
 ====
